@@ -6,7 +6,15 @@ import fol
 import streams
 from common import parse_q, sub_seed
 
-THEOREMS = ["LNN.C02_sound", "LNN.C02_sound_call", "LNN.C02_no_contradiction", "LNN.C02_no_leak"]
+THEOREMS = ["LNN.C02_sound",
+            "LNN.C02_sound_call",
+            "LNN.C02_sound_infer",
+            "LNN.C02_arity",
+            "LNN.C02_no_contradiction",
+            "LNN.C02_no_model_contradiction",
+            "LNN.C02_no_model_contradiction_infer",
+            "LNN.C02_no_leak",
+            "LNN.C02_no_leak_reads"]
 MODULES = ["LnnVerif.Props.C02"]
 
 
